@@ -5,7 +5,7 @@
 From Coq Require Import ZArith List Bool QArith Permutation.
 From MV Require Import Tri.PartitionDefs Tri.PartitionCheck Tri.PartitionModel Tri.PartitionBounded.
 From MV Require Base.Chain Tri.QuadChain Tri.QuadModel Tri.TriModel Tri.SubdivideDefs Tri.SubdivideModel
-  Tri.SimplifyDefs Tri.SimplifyModel Tri.PartitionSweepMisc.
+  Tri.SimplifyDefs Tri.SimplifyModel Tri.PartitionSweepMisc Tri.ReindexModel.
 Import ListNotations.
 Local Open Scope Z_scope.
 
@@ -280,28 +280,39 @@ Theorem subdivided_outlines_balance :
 Proof. exact SubdivideModel.gout_balances. Qed.
 Print Assumptions subdivided_outlines_balance.
 
+(* Reindex, all sizes, all six orders of the divisions (mirrored patterns
+   included): the reindexed pattern triangulates the three subdivided sides of
+   its triangle, numbered as Reindex numbers them (edge_run). *)
+Theorem reindex_outline :
+  forall (T : Type) (tzero tone : T) (tlerp : T -> T -> Z -> Z -> T)
+         (d0 d1 d2 : Z) (p : partition T) (v0 v1 v2 o0 o1 o2 ox : Z) (f0 f1 f2 fx : bool) (io : Z) (rt : list tri),
+    1 <= d0 -> 1 <= d1 -> 1 <= d2 -> 0 <= v0 -> 0 <= v1 -> 0 <= v2 ->
+    get_partition T tzero tone tlerp (V4 d0 d1 d2 0) = Some p ->
+    TriModel.split_ok (c0 (p_sorted p)) (c1 (p_sorted p)) (c2 (p_sorted p)) ->
+    reindex T p (V4 v0 v1 v2 (-1)) (V4 o0 o1 o2 ox) (V4 f0 f1 f2 fx) io = Some rt ->
+    forall a b, Chain.coef (Chain.boundaries rt) a b =
+                ReindexModel.rsides a b v0 v1 v2 o0 o1 o2 f0 f1 f2 (d0 - 1) (d1 - 1) (d2 - 1).
+Proof. exact ReindexModel.reindex_outline. Qed.
+Print Assumptions reindex_outline.
+
 (* ... hence the subdivided soup of the ported Subdivide is closed and oriented
-   for every closed input and every edgeDivisions oracle, PROVIDED each
-   reindexed pattern triangulates the global outline of its triangle
-   (hypothesis H_pattern below).  PARTIAL: H_pattern follows from
-   partition_tiles through the vertex renaming done by Reindex (all six orders,
-   mirrored patterns); that renaming step is proved only for divisions <= 5
-   (reindex_two_triangles_bounded) and exhibited on SubdivideModel.tetra_pattern,
-   not for all sizes. *)
-Theorem subdivide_balances_partial :
+   for every closed oriented input with non-negative vertex ids and every
+   non-negative edgeDivisions oracle (meshes without marked quads, keepInterior
+   = false; see subdivide_q_* for the general model).  The only remaining
+   hypothesis is split_ok for the patterns that are used (the two
+   double-precision numbers of the obtuse branch; swept for n0 <= 24). *)
+Theorem subdivide_balances :
   forall (T : Type) (tzero tone : T) (tlerp : T -> T -> Z -> Z -> T)
          (numVert : Z) (tris : list tri) (added : Z -> Z -> Z) (out : list tri),
     Chain.ceq (Chain.boundaries tris) [] ->
-    (forall (t : tri) (p : partition T) (io : Z) (rt : list tri),
-       In t tris ->
-       SubdivideDefs.sub_part T tzero tone tlerp numVert tris added t = Some p ->
-       SubdivideDefs.tri_out T numVert tris added t p io = Some rt ->
-       Chain.ceq (Chain.boundaries rt)
-                 (SubdivideModel.gout (SubdivideModel.goff numVert tris added) (SubdivideModel.gadd numVert tris added) t)) ->
+    (forall p q r, In (p, q, r) tris -> 0 <= p /\ 0 <= q /\ 0 <= r) ->
+    (forall u v, 0 <= added u v) ->
+    (forall t p, In t tris -> SubdivideDefs.sub_part T tzero tone tlerp numVert tris added t = Some p ->
+                 TriModel.split_ok (c0 (p_sorted p)) (c1 (p_sorted p)) (c2 (p_sorted p))) ->
     SubdivideDefs.subdivide_tris T tzero tone tlerp numVert tris added = Some out ->
     Chain.ceq (Chain.boundaries out) [].
-Proof. exact SubdivideModel.subdivide_balances. Qed.
-Print Assumptions subdivide_balances_partial.
+Proof. exact ReindexModel.subdivide_balances_all. Qed.
+Print Assumptions subdivide_balances.
 
 Example subdivide_tetra_balances : Chain.ceq (Chain.boundaries SubdivideModel.tetra_out) [].
 Proof. exact SubdivideModel.tetra_balances. Qed.
